@@ -133,6 +133,10 @@ class Check:
             print("REFUTED %s rule=%s instance=%s at %s (%s): %s" %
                   (self.pid, o["rule"], o["instance"], o["loc"], o["function"], o["detail"]))
             print("VIOLATION property=%s replay=%s" % (self.pid, path))
+        if os.environ.get("VERIF_DUMP"):
+            for o in self.obligations:
+                if o["ok"] and os.environ["VERIF_DUMP"] in o["rule"] + " " + o["instance"]:
+                    print("DISCHARGED %s rule=%s instance=%s at %s: %s" % (self.pid, o["rule"], o["instance"], o["loc"], o["detail"]))
         for u in self.inconclusive:
             print("INCONCLUSIVE property=%s rule=%s instance=%s at %s: %s" %
                   (self.pid, u["rule"], u["instance"], u["loc"], u["why"]))
